@@ -44,6 +44,10 @@ def explore(res, rng, n, exhaustive=None):
             rf, rp, fp = (cyc.run_impl(k, h, s) for k in ('rainflow', 'rangepair', 'fourpoint'))
             res.evaluations += 1
             res.stat('any_history')
+            for nm_, o_ in (('rainflow', rf), ('rangepair', rp), ('fourpoint', fp)):
+                if 'error' in o_:
+                    res.failures.append({'signature': f'C04:any:raised:{nm_}:{enc_list(h)}', 'clause': f'{cyc.API[nm_]} raised on a valid history (at least four samples): ' + o_['error'],
+                                         'api': cyc.API[nm_], 'input': h, 'scale': s})
             if not any('error' in o for o in (rf, rp, fp)):
                 reqs.append(f'c04any {enc_list(h)} {enc_cycs(rf["seq"])} {enc_table(rf["table"])} {enc_cycs(rp["seq"])} {enc_cycs(fp["seq"])}')
                 meta.append(('any', h, s, None))
@@ -55,6 +59,9 @@ def explore(res, rng, n, exhaustive=None):
             outs = {k: cyc.run_impl(k, hc, s) for k in ('rainflow', 'rangepair', 'repeat', 'fourpoint')}
             res.evaluations += 1
             res.stat('closed_at_extreme')
+            if 'error' in outs['fourpoint'] and len(hc) >= 4:
+                res.failures.append({'signature': f'C04:closed:raised:fourpoint:{enc_list(hc)}', 'clause': 'fourPointRainflowCounting raised on a closed history of at least four samples: ' + outs['fourpoint']['error'],
+                                     'api': 'fourPointRainflowCounting', 'input': hc, 'scale': s})
             if not any('error' in outs[k] for k in ('rainflow', 'rangepair', 'repeat')):
                 t4 = enc_table(outs['fourpoint']['table']) if 'error' not in outs['fourpoint'] else '0:0'
                 reqs.append(f'c04closed {enc_list(hc)} {enc_table(outs["rainflow"]["table"])} '
